@@ -524,6 +524,18 @@ def fill_command(s, ed, rnd, tmp):
                 if len(chosen) == len(basis):
                     break
             cols = chosen
+            # table shapes in turn: a sufficient subset; every one of the 21 components listed (zeros written out) with symmetry-related entries that disagree in the
+            # second decimal (the fill reconciles them and omits what vanishes); a sufficient subset plus redundant columns
+            shape = (systems.index(system) + r) % 3
+            if shape == 1:
+                cols = [int(k) for k in nrnd.permutation(21)]
+            elif shape == 2:
+                cols = chosen + [int(k) for k in nrnd.permutation(21) if int(k) not in chosen][:3]
+            if shape in (1, 2) and len(cols) > len(chosen):
+                extra = [k for k in cols if k not in chosen and numpy.any(numpy.abs(tens[:, k]) > 1e-6)]
+                if extra:
+                    tens = tens.copy()
+                    tens[:, extra[0]] += 0.02
             header = ["title of the table", "%.4f %d %.3f" % (500.0, nv, 123.456)]
             lines = ["V " + " ".join(names[k].upper() if nrnd.rand() < 0.3 else names[k] for k in cols)]
             vols = numpy.linspace(600, 400, nv)
@@ -569,8 +581,8 @@ def fill_command(s, ed, rnd, tmp):
                 fails.append({"witness_id": "fillcmd:%s:%d" % (system, r), "input": {"system": system, "text": text[:400]}, "observed": msg,
                               "expected": "parse(output) == fill(parse(input)); header, volumes, lattice block preserved"})
                 break
-    s.bounded_standin("C17.fill_command_round_trip", "%d table(s) per crystal system through the real click command (1-6 rows, random sufficient component subsets, mixed letter case, with/without "
-                      "lattice block), seed %d" % (reps, s.seed), evals, distinct, fails, ["cli/fill.main"])
+    s.bounded_standin("C17.fill_command_round_trip", "%d table(s) per crystal system through the real click command (1-6 rows; sufficient subsets, all 21 components listed, subsets with redundant "
+                      "columns whose symmetry-related entries disagree in the second decimal; mixed letter case, with/without lattice block), seed %d" % (reps, s.seed), evals, distinct, fails, ["cli/fill.main"])
 
 
 MANIFEST = {
